@@ -28,8 +28,8 @@ impl Property for C12 {
     }
     fn cases(&self, tier: Tier) -> u64 {
         match tier {
-            Tier::Quick => 12000,
-            Tier::Thorough => 16 * 60000,
+            Tier::Quick => 96000,
+            Tier::Thorough => 96000 * 100,
         }
     }
     fn required_classes(&self) -> Vec<&'static str> {
